@@ -185,6 +185,68 @@ async fn run_history(log: &Log, r: &mut Rng, pairs: &[Pair], sc: &Value, check_e
     log.block_with_consts(d, json!({"checkExpiry": check_expiry}), ev);
 }
 
+/// One in-memory handshake against a given acceptor; returns the leaf certificate.
+async fn leaf_of(acceptor: Arc<tokio_rustls::TlsAcceptor>) -> Option<Vec<u8>> {
+    let provider = Arc::new(rustls::crypto::aws_lc_rs::default_provider());
+    let rec = Arc::new(Recorder { leaf: Mutex::new(None), provider: provider.clone() });
+    let cfg = rustls::ClientConfig::builder_with_provider(provider).with_safe_default_protocol_versions().ok()?
+        .dangerous().with_custom_certificate_verifier(rec.clone()).with_no_client_auth();
+    let connector = tokio_rustls::TlsConnector::from(Arc::new(cfg));
+    let (a, b) = tokio::io::duplex(1 << 16);
+    let srv = tokio::spawn(async move { acceptor.accept(b).await });
+    let cli = connector.connect(ServerName::try_from("localhost").unwrap(), a).await;
+    let _ = srv.await;
+    cli.ok()?;
+    let leaf = rec.leaf.lock().unwrap().clone();
+    leaf
+}
+
+/// Reloads that overlap a replacement of the certificate file: another thread keeps replacing
+/// cert.pem (atomically, by rename) with certificates that all belong to the key on disk - two valid
+/// ones and an expired one - while this task reloads; after every successful reload the served leaf
+/// and the reported information (both installed by that reload) are compared.
+async fn run_race(log: &Log, reloads: u32, dir: &std::path::Path) {
+    let key = rcgen::KeyPair::generate().unwrap();
+    let mk = |cn: &str, expired: bool| {
+        let mut params = rcgen::CertificateParams::new(vec!["localhost".to_string()]).unwrap();
+        // rcgen derives the default serial number from the key: give every certificate of this key its own
+        params.serial_number = Some(rcgen::SerialNumber::from(cn.as_bytes().to_vec()));
+        params.distinguished_name.push(rcgen::DnType::CommonName, cn.to_string());
+        if expired { params.not_before = rcgen::date_time_ymd(2001, 1, 1); params.not_after = rcgen::date_time_ymd(2002, 1, 1); }
+        let cert = params.self_signed(&key).unwrap();
+        let pem = cert.pem();
+        let serial = CertificateInfo::from_pem_bytes(pem.as_bytes()).map(|i| i.serial_number).unwrap_or_default();
+        (pem, cert.der().to_vec(), serial)
+    };
+    let certs = vec![mk("race-1", false), mk("race-2", false), mk("race-expired", true)];
+    let (cp, kp) = (dir.join("race-cert.pem"), dir.join("race-key.pem"));
+    std::fs::write(&cp, &certs[0].0).unwrap();
+    std::fs::write(&kp, key.serialize_pem()).unwrap();
+    let cfg = CertReloaderConfig { cert_path: cp.clone(), key_path: kp.clone(), watch_enabled: false, debounce_ms: 10, check_expiry: true, expiry_warning_days: 30 };
+    let Ok(rel) = CertReloader::new(cfg) else { return };
+    let stop = Arc::new(std::sync::atomic::AtomicBool::new(false));
+    let (stop2, pems, cp2, tmp) = (stop.clone(), certs.iter().map(|c| c.0.clone()).collect::<Vec<_>>(), cp.clone(), dir.join("race-cert.tmp"));
+    let writer = std::thread::spawn(move || {
+        let mut i = 0usize;
+        while !stop2.load(Ordering::SeqCst) { i += 1; let _ = std::fs::write(&tmp, &pems[i % pems.len()]); let _ = std::fs::rename(&tmp, &cp2); }
+    });
+    let (mut ok, mut mismatch, mut expired) = (0u32, 0u32, 0u32);
+    for _ in 0..reloads {
+        if rel.reload().is_err() { continue; }
+        ok += 1;
+        let info = rel.get_cert_info().map(|i| i.serial_number).unwrap_or_default();
+        let Some(leaf) = leaf_of(rel.get_acceptor()).await else { continue };
+        let served = certs.iter().position(|c| c.1 == leaf);
+        let reported = certs.iter().position(|c| c.2 == info);
+        if served != reported { mismatch += 1; }
+        if served == Some(2) { expired += 1; }
+    }
+    stop.store(true, Ordering::SeqCst);
+    let _ = writer.join();
+    log.block_with_consts(json!({"kind": "race", "reloads": reloads}), json!({"checkExpiry": true}),
+        vec![json!({"ev": "race", "reloads": reloads, "ok": ok, "mismatch": mismatch, "expired": expired}), json!({"ev": "end", "panics": 0})]);
+}
+
 pub fn run(args: &Args, log: &Log) -> Result<(), String> {
     let thorough = args.tier == "thorough";
     std::panic::set_hook(Box::new(|_| { PANICS.fetch_add(1, Ordering::SeqCst); }));
@@ -202,6 +264,7 @@ pub fn run(args: &Args, log: &Log) -> Result<(), String> {
             run_history(log, &mut r, &pairs, sc, !ce, dir.path()).await;
         }
     });
+    rt.block_on(async { for _ in 0..(if thorough { 10 } else { 2 }) { run_race(log, if thorough { 2000 } else { 400 }, dir.path()).await; } });
     log.block(json!({"kind": "end"}), vec![json!({"ev": "end", "panics": PANICS.load(Ordering::SeqCst) - panics0})]);
     let _ = std::panic::take_hook();
     Ok(())
